@@ -28,50 +28,68 @@ MA = C10.MA
 MODES = ("NUMBER", "NUMBER_FRACTION", "MASS_FRACTION")
 
 
-def _mode_decider(mode):
-    def decide(node, h):
-        s = norm(node)
-        if s == "self.norm_type == Norm.MASS_FRACTION":
-            return mode == "MASS_FRACTION"
-        if s == "self.norm_type == Norm.NUMBER":
-            return mode == "NUMBER"
-        if s == "self.norm_type == Norm.NUMBER_FRACTION":
-            return mode == "NUMBER_FRACTION"
-        if s.startswith("self.norm_type in ["):
-            names = [x.strip().replace("Norm.", "") for x in s[len("self.norm_type in ["):-1].split(",")]
-            return mode in names
-        if s == "type(self) in Component.__subclasses__()":
+def _mode_atom(mode):
+    """Valuation of the tests on the normalisation mode (structural: ==, !=, in, not in against Norm members)."""
+    def atom(e):
+        if isinstance(e, ast.Compare) and len(e.ops) == 1 and norm(e.left) == "self.norm_type":
+            c = e.comparators[0]
+            names = None
+            if isinstance(c, (ast.List, ast.Tuple, ast.Set)):
+                names = [norm(x) for x in c.elts]
+            elif isinstance(c, ast.Attribute):
+                names = [norm(c)]
+            if names and all(n.startswith("Norm.") for n in names):
+                hit = f"Norm.{mode}" in names
+                if isinstance(e.ops[0], (ast.Eq, ast.In)):
+                    return hit
+                if isinstance(e.ops[0], (ast.NotEq, ast.NotIn)):
+                    return not hit
+        if norm(e) == "type(self) in Component.__subclasses__()":
             return False
         return None
-    return decide
+    return atom
+
+
+def _mode_decider(mode):
+    a = _mode_atom(mode)
+    return lambda node, h: a(node)
+
+
+def _summand(v):
+    """np.sum([f(i) for i in self.components.values()]) -> term of f over p = i.proportion, m = i.component_mass."""
+    if not (isinstance(v, ast.Call) and dotted_name(v.func) in ("np.sum", "sum", "numpy.sum") and len(v.args) == 1
+            and isinstance(v.args[0], (ast.ListComp, ast.GeneratorExp))):
+        raise Unrecognised(f"not a plain sum: {norm(v)[:120]}")
+    comp = v.args[0]
+    if len(comp.generators) != 1 or comp.generators[0].ifs or not isinstance(comp.generators[0].target, ast.Name) \
+            or norm(comp.generators[0].iter) != "self.components.values()":
+        raise Unrecognised(f"sum does not range over all components: {norm(comp)[:120]}")
+    i = comp.generators[0].target.id
+    t = SymEval({f"{i}.proportion": Term.sym("p"), f"{i}.component_mass": Term.sym("m")}).ev(comp.elt)
+    if t.atoms() - {"p", "m"}:
+        raise Unrecognised(f"summand {t.key()} has parts the abstraction does not interpret")
+    return t
 
 
 def totals(ctx, mode):
-    """(summand of proportion_norm, summand of composite_mass) as Terms over p, m."""
+    """(summand of proportion_norm, summand of composite_mass) as Terms over p, m - read from the resolved stores on
+    the paths of Composite._norm consistent with the mode."""
+    from ..flowexpr import consistent, paths
     fn = ctx.fn(CO, "Composite._norm")
+    ps, unk = consistent(paths(fn), _mode_atom(mode))
+    if unk or not ps:
+        raise Unrecognised(f"condition not interpretable: {sorted(set(unk))[:1]}")
     out = {}
-
-    def inline(call, ev):
-        f = dotted_name(call.func)
-        if f in ("np.sum", "sum") and len(call.args) == 1 and isinstance(call.args[0], (ast.ListComp, ast.GeneratorExp)):
-            comp = call.args[0]
-            if len(comp.generators) == 1 and isinstance(comp.generators[0].target, ast.Name) and norm(comp.generators[0].iter) in ("components", "self.components.values()"):
-                v = comp.generators[0].target.id
-                sub = SymEval({f"{v}.proportion": Term.sym("p"), f"{v}.component_mass": Term.sym("m")})
-                t = sub.ev(comp.elt)
-                store.append(t)
-                return Term.sym(f"SUM#{len(store) - 1}")
-        return None
-    store = []
-    h, sig = execute(fn, _mode_decider(mode), {}, inline=inline)
     for name in ("proportion_norm", "composite_mass"):
-        v = h.env.get(f"self.{name}")
-        if v is None or v is NONE:
-            raise Unrecognised(f"self.{name} not assigned in mode {mode}")
-        hit = [i for i in range(len(store)) if v.equals(Term.sym(f"SUM#{i}"))]
-        if not hit:
-            raise Unrecognised(f"self.{name} is not a plain sum: {v.key()}")
-        out[name] = store[hit[0]]
+        terms = []
+        for q in ps:
+            st = [e.resolved for e in q.events if e.kind == "store" and e.extra == f"self.{name}"]
+            if not st:
+                raise Unrecognised(f"self.{name} not assigned in mode {mode}")
+            terms.append(_summand(st[-1]))
+        if any(not t.equals(terms[0]) for t in terms[1:]):
+            raise Unrecognised(f"self.{name}: paths of mode {mode} disagree")
+        out[name] = terms[0]
     return out
 
 
@@ -91,16 +109,49 @@ def r1_totals(ctx):
 
 
 def fractions(ctx, mode):
-    """Terms of values['x'] and values['X'] in Composite._data for one mode."""
+    """Terms of values['x'] and values['X'] in Composite._data for one mode: the resolved stores of one iteration of
+    the component loop on the paths consistent with the mode."""
+    from ..flowexpr import consistent, explore
     fn = ctx.fn(CO, "Composite._data")
-    loops = [n for n in fn.body if isinstance(n, ast.For) and norm(n.iter) == "self.components.items()"]
+    ex = explore(fn)
+    loops = [v for v in ex.iterations.values() if isinstance(v[0], ast.For) and norm(v[0].iter) == "self.components.items()"]
     if len(loops) != 1:
         raise Unrecognised("component loop not found")
-    lp = loops[0]
-    mv = lp.target.elts[1].id if isinstance(lp.target, ast.Tuple) else "m"
-    blocks = [s for s in lp.body if isinstance(s, ast.If) and "self.norm_type" in norm(s.test)]
-    if not blocks:
-        raise Unrecognised("mode decision not found in the component loop")
+    lp, start, its = loops[0]
+    if not (isinstance(lp.target, ast.Tuple) and len(lp.target.elts) == 2 and all(isinstance(e, ast.Name) for e in lp.target.elts)):
+        raise Unrecognised("component loop target")
+    mv = lp.target.elts[1].id + "@loop1"
+    ma = _mode_atom(mode)
+
+    def atom(e):
+        r = ma(e)
+        if r is not None:
+            return r
+        k = norm(e)
+        if " not in " in k and k.endswith("@loop1 not in components") or k == "components":
+            return False          # the component is selected
+        if k.startswith("isinstance(") or k in ("unit", "quantity"):
+            return True           # formatting of the row: any branch
+        return None
+    got = []
+    for q in its:
+        ok = True
+        for e in q.events[start:]:
+            if e.kind == "test":
+                from ..flowexpr import truth
+                v = truth(e.resolved, ma)
+                if v is not None and v != e.extra:
+                    ok = False
+        if not ok:
+            continue
+        st = {}
+        for e in q.events[start:]:
+            if e.kind == "store" and str(e.extra).endswith(("['x']", "['X']")):
+                st[str(e.extra)[-4:-2][-1]] = e.resolved
+        if "x" in st and "X" in st:
+            got.append((st["x"], st["X"]))
+    if not got:
+        raise Unrecognised(f"values['x'] / values['X'] not assigned in mode {mode}")
     env = {f"{mv}.proportion": Term.sym("p"), f"{mv}.component_mass": Term.sym("m"),
            "self.proportion_norm": Term.sym("PN"), "self.composite_mass": Term.sym("CM")}
 
@@ -108,11 +159,17 @@ def fractions(ctx, mode):
         if dotted_name(call.func) == "Quantity" and len(call.args) == 1:
             return ev.ev(call.args[0])
         return None
-    h, sig = execute(fn, _mode_decider(mode), env, inline=inline, body=[blocks[0]])
-    x, X = h.env.get("values['x']"), h.env.get("values['X']")
-    if x is None or X is None or x is NONE or X is NONE:
-        raise Unrecognised(f"values['x'] / values['X'] not assigned in mode {mode}")
-    return x, X
+    res = []
+    for x, X in got:
+        ev = SymEval(dict(env), inline=inline)
+        tx, tX = ev.ev(x), ev.ev(X)
+        for t in (tx, tX):
+            if t.atoms() - {"p", "m", "PN", "CM"}:
+                raise Unrecognised(f"term {t.key()} has parts the abstraction does not interpret")
+        res.append((tx, tX))
+    if any(not (a.equals(res[0][0]) and b.equals(res[0][1])) for a, b in res[1:]):
+        raise Unrecognised(f"paths of mode {mode} disagree on x / X")
+    return res[0]
 
 
 def r2_same_term(ctx):
@@ -148,10 +205,85 @@ def r3_percent(ctx):
         a = ctx.repo.class_attr(r[0], r[2], "FRACTION")
         frac = Evaluator(ctx.repo, a[0]).ev(a[1]) if a else None
     ctx.check(frac == "%", "src/scinumtools/materials/__init__.py", "Units", "the fraction unit is percent", detail=frac)
+    _cell_table(ctx)
+
+
+def _cell_table(ctx):
+    """How one table cell is produced from (value, column unit, quantity flag): decision table over
+    (quantity and unit, value is a Quantity, unit given) on resolved paths - of the loop body that appends to the row,
+    or of the helper the row comprehension calls."""
+    from ..flowexpr import consistent, explore, paths, reduce_ifexp
     fn = ctx.fn(CO, "Composite._data")
-    s = norm(fn).replace("\n", " ")
-    ctx.form("row.append(value.to(unit))" in s and "row.append(Quantity(value, unit))" in s and "value.value(unit) if unit else value.value()" in s,
-             CO, "Composite._data", "every column value is expressed in the column's declared unit")
+    name = "every column value is expressed in the column's declared unit"
+    cases = []           # (paths, start, V, U, Q, result extractor)
+    comp = [a for a in ast.walk(fn) if isinstance(a, ast.Assign) and len(a.targets) == 1 and norm(a.targets[0]) == "row" and isinstance(a.value, ast.ListComp)]
+    if comp:
+        lc = comp[0].value
+        call = lc.elt
+        c = ctx.repo.cls(CO, "Composite")
+        if not (isinstance(call, ast.Call) and isinstance(call.func, ast.Attribute) and norm(call.func.value) in ("self", "Composite") and call.func.attr in methods(c)
+                and len(lc.generators) == 1 and norm(lc.generators[0].iter) == "column_names" and len(call.args) == 3):
+            ctx.unrecognised(CO, "Composite._data", name, f"row comprehension {norm(lc)[:100]}")
+            return
+        col = norm(lc.generators[0].target)
+        if [norm(a) for a in call.args] != [f"values[{col}]", f"columns[{col}]", "quantity"]:
+            ctx.unrecognised(CO, "Composite._data", name, f"cell helper arguments {[norm(a) for a in call.args]}")
+            return
+        h = methods(c)[call.func.attr]
+        pa = [a.arg for a in h.args.args]
+        if any(isinstance(d, ast.Name) and d.id == "staticmethod" for d in h.decorator_list):
+            pa = [None] + pa
+        if len(pa) != 4:
+            ctx.unrecognised(CO, "Composite._data", name, "cell helper signature")
+            return
+        ctx.functions_analysed.add(f"{CO}::Composite.{h.name}")
+        V, U, Qn = pa[1], pa[2], pa[3]
+        ps = paths(h)
+        get = lambda q: [e.resolved for e in q.events if e.kind == "return"]   # noqa: E731
+        start = 0
+    else:
+        ex = explore(fn)
+        loops = [v for v in ex.iterations.values() if isinstance(v[0], ast.For) and norm(v[0].iter) == "column_names"]
+        if len(loops) != 1 or not isinstance(loops[0][0].target, ast.Name):
+            ctx.unrecognised(CO, "Composite._data", name, "column loop not found")
+            return
+        lp, start, ps = loops[0]
+        vs = sorted({norm(e.resolved.args[0]) for q in ps for e in q.events[start:] if e.kind == "test" and isinstance(e.resolved, ast.Call)
+                     and dotted_name(e.resolved.func) == "isinstance" and norm(e.resolved.args[1]) == "Quantity"})
+        us = sorted({norm(n) for q in ps for e in q.events[start:] if e.kind == "test" for n in ast.walk(e.resolved)
+                     if isinstance(n, ast.Subscript) and norm(n.value) == "columns"})
+        if len(vs) != 1 or len(us) != 1:
+            ctx.unrecognised(CO, "Composite._data", name, f"cell value / unit expressions not identified: {vs} {us}")
+            return
+        V, U, Qn = vs[0], us[0], "quantity"
+        ps = [q for q in ps if any(e.kind == "expr" for e in q.events[start:])]
+
+        def get(q):
+            return [e.resolved.args[0] for e in q.events[start:] if e.kind == "expr" and isinstance(e.resolved, ast.Call) and norm(e.resolved.func).endswith("row.append")
+                    and len(e.resolved.args) == 1] + \
+                   [e.resolved.args[0] for e in q.events[start:] if e.kind == "expr" and isinstance(e.resolved, ast.Call) and norm(e.resolved.func) == "[].append" and len(e.resolved.args) == 1]
+    bad, rows, unk = [], [], []
+    for qf in (True, False):
+        for u in (True, False):
+            for isq in (True, False):
+                def atom(e, _q=qf, _u=u, _i=isq):
+                    return {Qn: _q, U: _u, f"isinstance({V}, Quantity)": _i}.get(norm(e))
+                cs, un = consistent(ps, atom, start)
+                unk += un
+                res = sorted({norm(reduce_ifexp(r, atom)) for q in cs for r in get(q)})
+                if qf and u:
+                    want = f"{V}.to({U})" if isq else f"Quantity({V}, {U})"
+                elif isq:
+                    want = f"{V}.value({U})" if u else f"{V}.value()"
+                else:
+                    want = V
+                rows.append(f"quantity={qf} unit={u} isQuantity={isq}: {res}")
+                if res != [want]:
+                    bad.append((rows[-1], want))
+    if unk and bad:
+        ctx.unrecognised(CO, "Composite._data", name, f"tests not decided by the cell valuation: {sorted(set(unk))[:2]}")
+    else:
+        ctx.check(not bad, CO, "Composite._data", name, detail=[b[0] for b in bad] or f"{len(rows)} cells", expected=[b[1] for b in bad] or None)
 
 
 def r4_mode_survives(ctx):
